@@ -437,10 +437,19 @@ fn idle_tick(graphs: usize, track: bool) -> (usize, usize) {
         auth.mutations.resize_related(graphs);
     }
     send_messages(&mut Query::new(&mut rows), &mut server, RepliconTick::new(7), track, &mut serialized, &mut entity_buffer, change_tick, &time).unwrap();
-    let (_, updates) = sent_to(&mut server, CLIENTS[0], ServerChannel::Updates as usize);
-    // `sent_to` drains everything, so count mutate messages from a second, identical run.
-    send_messages(&mut Query::new(&mut rows), &mut server, RepliconTick::new(7), track, &mut serialized, &mut entity_buffer, change_tick, &time).unwrap();
-    let (message, mutates) = sent_to(&mut server, CLIENTS[0], ServerChannel::Mutations as usize);
+    let mut updates = 0;
+    let mut mutates = 0;
+    let mut message = None;
+    for (to, channel, bytes) in server.drain_sent() {
+        assert!(to == CLIENTS[0]);
+        if channel == ServerChannel::Updates as usize {
+            updates += 1;
+        } else {
+            assert!(channel == ServerChannel::Mutations as usize);
+            mutates += 1;
+            message = Some(bytes);
+        }
+    }
     if track {
         // Tracking: update tick 0, server tick 7, message count 1, mutate index (2 bytes), no entities.
         let message = message.as_ref().unwrap();
